@@ -51,14 +51,26 @@ Definition rich_equals (tb : rich_tables) (x y : rich) : option bool :=
   | _, _ => Some false                       (* another type: every Equals starts with the type assertion *)
   end.
 
-(* the representation invariants the theorems assume *)
+(* the modelled text of a duration against the implementation's SerializationString (the table holds both bounds of
+   every Timespan type of the pool, the two extremes included, which no key shows) *)
+Definition sp_text_ok (tb : rich_tables) (d : Z) : bool := str_eqb (sp_text d) (zlookup d (tb_sp tb)).
+
+(* what C07_runtime_type_key_iff_eq assumes of a reflect.Type, checked on the table: PkgPath() and %p hold no byte <= 4,
+   %p holds no '#', no two entries (different type descriptors) have one address *)
+Definition go_entry_ok (tb : rich_tables) (i : nat) : bool :=
+  let '(_, pkg, ptr) := nlookup i (tb_go tb) in
+  forallb (fun b => 4 <? b)%N pkg && forallb (fun b => 4 <? b)%N ptr && negb (existsb (N.eqb 35) ptr) &&
+  negb (is_empty ptr) &&
+  forallb (fun e' : nat * (str * str * str) => Nat.eqb i (fst e') || negb (str_eqb ptr (snd (snd e')))) (tb_go tb).
+
+(* the representation invariants the theorems assume, and the oracle checks *)
 Definition rich_wf (tb : rich_tables) (x : rich) : bool :=
   match x with
   | RTs t => ts_okb t
-  | RSp t => sp_wf t
+  | RSp t => sp_wf t && sp_text_ok tb (sp_min t) && sp_text_ok tb (sp_max t)
   | RRt (Some t) => rt_wf t
   | RRt None => false
-  | RGo i => rt_wf (new_go_runtime_type (go_of tb) i)
+  | RGo i => rt_wf (new_go_runtime_type (go_of tb) i) && go_entry_ok tb i
   end.
 
 (* a row: the position of a type in the pool, its observed hash key, the positions of the pool types y with
@@ -86,16 +98,3 @@ Definition rich_ok (tb : rich_tables) (pool : list rich) (c : rich_case) : bool 
 
 Definition c07_rich_mismatches (tb : rich_tables) (pool : list rich) (cases : list rich_case) : list N :=
   failing (rich_ok tb pool) cases.
-
-(* the modelled text of a duration against the implementation's SerializationString, for every duration of the pool
-   (the two extremes included, which no key shows) *)
-Definition c07_rich_text_mismatches (tb : rich_tables) : list N :=
-  failing (fun ds : Z * str => str_eqb (sp_text (fst ds)) (snd ds)) (tb_sp tb).
-
-(* what C07_runtime_type_key_iff_eq assumes of a reflect.Type, checked on the table: PkgPath() and %p hold no byte <= 4,
-   %p holds no '#', no two entries (different type descriptors) have one address *)
-Definition go_entry_ok (tb : rich_tables) (e : nat * (str * str * str)) : bool :=
-  let '(i, (_, pkg, ptr)) := e in
-  forallb (fun b => 4 <? b)%N pkg && forallb (fun b => 4 <? b)%N ptr && negb (existsb (N.eqb 35) ptr) &&
-  forallb (fun e' : nat * (str * str * str) => Nat.eqb i (fst e') || negb (str_eqb ptr (snd (snd e')))) (tb_go tb).
-Definition c07_rich_go_mismatches (tb : rich_tables) : list N := failing (go_entry_ok tb) (tb_go tb).
